@@ -9,6 +9,11 @@ from .models import model, as_slice, deref_val, usize, cow_slice, clone_value, e
 
 
 # ------------------------------------------------------------------ Vec / String
+@model(r'^<Option<.*> as Default>::default$')
+def m_option_default(I, fr, callee, m, args):
+    return NONE
+
+
 @model(r'^Vec::<.*>::new$|^String::new$|^<Vec<.*> as Default>::default$|^<String as Default>::default$')
 def m_vec_new(I, fr, callee, m, args):
     return VecV((), 'String' in callee)
